@@ -320,9 +320,9 @@ func checkRangeMapDeliver(c *Ctx, rule string, fn *ssa.Function, field string, i
 			t := lit.T
 			if t.K == "extract" && t.S == "0" && t.A[0].K == "next" && t.A[0].A[0].K == "range" && t.A[0].A[0].A[0].IsRecvField(field) {
 				more, known, next = lit.Val, true, t.A[0]
-			} else {
-				okk, detail = false, "extra condition in the fan-out loop: "+lit.String()
 			}
+			// other conditions (e.g. logging a failed send) are fine as long as every
+			// path still delivers once and continues the loop
 		}
 		if !known {
 			okk, detail = false, "loop is not a range over s."+field
